@@ -935,6 +935,9 @@ def job_case(job):
     if t == 'text':
         name, kind = job[1], job[2]
         return kind, dict(M.TEXTS)[name], None, None, True
+    if t == 'pres':
+        text, expect = M.presentation_case(job[1], job[2])
+        return 'wb', text, None, expect, True
     if t == 'mut':
         s = seeds[job[1]]
         tree = M.apply_mutations(_TREES[job[1]], job[2])
@@ -1102,6 +1105,8 @@ def build_jobs(tier):
     base.sort(key=lambda j: -len(seeds[j[1]]['text']))
     texts = [('text', name, kind) for name, _ in M.TEXTS
              for kind in ('wf', 'wb', 'act')]
+    pres = [('pres', bname, v) for bname, btext in M.PRES_BASES
+            for v in M.presentations(btext)]
     singles = []
     mutated, skipped_big, run_mutant_seeds = [], [], []
     for i, s in enumerate(seeds):
@@ -1149,15 +1154,23 @@ def build_jobs(tier):
     bounds['key_catalogue'] = [n for n, _ in M.KEYS]
     bounds['insert_catalogue'] = [n for n, _ in M.INSERTS]
     bounds['raw_texts'] = len(M.TEXTS)
+    bounds['presentation_bases'] = [n for n, _ in M.PRES_BASES]
+    bounds['presentation_edits'] = (
+        'one line-level edit per case: a comment line at every position x '
+        'indentation %s, a blank / whitespace-only line at every position, '
+        'trailing blanks on every line, every content line of a block '
+        'scalar replaced by each of %s, CRLF line ends, document markers'
+        % (list(M.PRES_COMMENT_INDENTS), M.PRES_BLOCK_LINES))
     bounds['seeds_whose_accepted_mutants_are_run'] = run_mutant_seeds
     bounds['pair_seeds'] = pair_seeds
     bounds['pair_value_catalogue'] = M.PAIR_VALUES
     bounds['pair_key_catalogue'] = M.PAIR_KEYS
     bounds['jobs'] = {'baseline': len(base), 'raw_text_x_kind': len(texts),
+                      'presentation_variants': len(pres),
                       'single_mutations': len(singles),
                       'pair_mutations': len(pairs), 'engine_runs': len(runs)}
     bounds['watchdog_s'] = SOFT_S
-    jobs = base + runs + common.rotate(texts + singles + pairs)
+    jobs = base + runs + common.rotate(texts + pres + singles + pairs)
     return jobs, bounds
 
 
@@ -1184,6 +1197,8 @@ def job_doc(job):
             d['run_params'] = load_seeds()[job[1]].get('run_params')
     elif job[0] == 'base':
         d['seed'] = load_seeds()[job[1]]['id']
+    elif job[0] == 'pres':
+        d['presentation'] = [job[1], job[2]]
     else:
         d['raw_text'] = job[1]
     return d
@@ -1194,6 +1209,8 @@ def job_label(job):
         return 'seed=%s unmutated' % load_seeds()[job[1]]['id']
     if job[0] == 'text':
         return 'raw=%s kind=%s' % (job[1], job[2])
+    if job[0] == 'pres':
+        return 'workbook=%s presentation=%s' % (job[1], job[2])
     if job[0] == 'run':
         return 'seed=%s results=%s' % (load_seeds()[job[1]]['id'], job[2])
     return 'seed=%s mutations=%s' % (
